@@ -2,6 +2,7 @@
 #include "gm2calc/MSSMNoFV_onshell.hpp"
 #include "gm2calc/gm2_1loop.hpp"
 #include "gm2calc/gm2_2loop.hpp"
+#include "gm2calc/gm2_error.hpp"
 #include "MSSMNoFV/gm2_1loop_helpers.hpp"
 #include "MSSMNoFV/gm2_2loop_helpers.hpp"
 #include <cstdio>
